@@ -924,7 +924,8 @@ static void gen_expr(Node *node) {
     return;
   }
   case ND_FUNCALL: {
-    if (node->lhs->kind == ND_VAR && !strcmp(node->lhs->var->name, "alloca")) {
+    if (node->lhs->kind == ND_VAR && !strcmp(node->lhs->var->name, "alloca") &&
+        node->args && !node->args->next) {
       gen_expr(node->args);
       println("  mov %%rax, %%rdi");
       builtin_alloca();
